@@ -37,6 +37,7 @@ CLAIM = (
     "ptychography problem, for every one of the 24 visiting orders of 4 patterns (and a family of orders for 12) and every divisor batch "
     "size, the mean of per-batch losses and gradients equals the full-batch values for all four loss types, also through the real "
     "reconstruct() loop, also with a grid or random validation split (epoch loss == loss over the training set, validation loss == loss over the validation set); equal seeds give bit-identical loss histories, a reset run repeats the fresh history after EVERY history of continue/reset calls up to depth 2/3 (with and without validation), different seeds differ."
+    ' Further enumerated dimensions: the seed in every documented spelling (int, numpy Generator incl. MT19937 / Philox, torch Generator, magnitudes beyond 2**64) with and without reset=True in the first run, one Generator object held by two reconstructions and the caller (every interleaving of their continued runs), calls that are no reconstruction steps (to, save, device=) inserted at every position of a continued run, and two epochs in flight on one batcher (nested loops, zip).'
 )
 NOTE = (
     "Trusted: the Generator subclass really is what the library draws its orders from (checked: the yielded order equals the prescribed "
